@@ -18,6 +18,7 @@ EXPLANATION = (
     "disjoint from the colour fields."
     ' Added after seed round 3: (7) AttrSpec.colors recognises each depth by exactly the flag pair the setters store for it (masks folded to integers; only 88 is told by its mode flag); (8) the hN branch of the 256/88 parsers accepts exactly 0..colours-1 (bound folded, compared as an interval).'
     " Round 4: (9) the 256-colour gray ramp and cube step tables equal xterm's closed forms (8 + 10*i; 0, 95 + 40*(i-1))."
+    ' Round 6: (13) SIB: every depth marker AttrSpec.__init__ puts into the packed value is reported by the colors property or cleared again in __init__ (fix 94a2129: a 2**24 spec without a 24-bit colour equals its rebuild).'
 )
 NOT_DECIDED = "Nearest-entry correctness, idempotence of parse(describe(x)), RGB values - value-level facts; range-check raises in the describers depend on the stored value's range (covered only through the twin comparison)."
 ASSUMPTIONS = ["Range-check `raise ValueError(num)` in _color_desc_* is assumed unreachable for values the parsers produce (table entries with reason)."]
@@ -393,6 +394,36 @@ def rule_midpoint(ctx: Ctx) -> RuleResult:
     return rr
 
 
+def rule_depth_markers(ctx: Ctx) -> RuleResult:
+    """'a spec rebuilt from its foreground, background and colors equals the original': AttrSpec.__init__ starts the
+    packed value with a *mode marker* per special depth (`M * (colors == depth)`), which tells the two setters how to
+    read colour descriptions.  The marker takes part in equality and hashing, so it must be recoverable from what the
+    object reports: either the `colors` property answers that depth whenever the marker is set (88 colours), or
+    __init__ clears the marker again when nothing of that depth was parsed (2**24: `colors` reports what the colours
+    need).  Before fix 94a2129 the true-colour marker was neither: AttrSpec('dark red', 'default', 2**24) reported 16
+    colours and differed from AttrSpec('dark red', 'default', 16) and from its own copy_modified()."""
+    p = ctx.p
+    rr = RuleResult("SIB", "C18.13", "every depth marker AttrSpec.__init__ puts into the packed value is reported by the colors property or cleared again in __init__", floor=2)
+    init = p.func("urwid.display.common.AttrSpec.__init__")
+    pi = p.find_member(p.cls("urwid.display.common.AttrSpec"), "colors")
+    if not pi or pi[0] != "property" or pi[1].getter is None:
+        raise AnalysisError("AttrSpec.colors property not found")
+    getter = pi[1].getter
+    markers = []
+    for n in init.own_nodes():
+        if isinstance(n, ast.BinOp) and isinstance(n.op, ast.Mult) and isinstance(n.left, ast.Name) and isinstance(n.right, ast.Compare) and len(n.right.ops) == 1 and isinstance(n.right.ops[0], ast.Eq) and isinstance(n.right.left, ast.Name) and n.right.left.id in init.params:
+            markers.append((n.left.id, ast.unparse(n.right.comparators[0])))
+    if len(markers) < 2:
+        raise AnalysisError(f"AttrSpec.__init__: the depth markers (`M * (colors == depth)`) were not found: {markers}")
+    for m, depth in markers:
+        reported = any(isinstance(t, ast.If) and any(isinstance(x, ast.Name) and x.id == m for x in ast.walk(t.test)) and not any(isinstance(x, ast.BitOr) for x in ast.walk(t.test)) and any(isinstance(r, ast.Return) and r.value is not None and ast.unparse(r.value) == depth for r in t.body) for t in getter.own_nodes())
+        cleared = any(isinstance(a, ast.AugAssign) and isinstance(a.op, ast.BitAnd) and isinstance(a.value, ast.UnaryOp) and isinstance(a.value.op, ast.Invert) and isinstance(a.value.operand, ast.Name) and a.value.operand.id == m for a in init.own_nodes())
+        rr.inst(f"marker {m}", True, {"marker": m, "depth": depth, "reported_by_colors": reported, "cleared_when_unused": cleared})
+        if not (reported or cleared):
+            rr.add(finding("SIB", init, init.node, f"__init__ sets the marker {m} for colors == {depth}, but the colors property does not answer {depth} for it and __init__ never clears it: a specification that uses no colour of that depth keeps the bit, reports a lower depth and is unequal to the specification rebuilt from (foreground, background, colors) - copy_modified() does not return an equal object", construct=f"depth marker {m} neither reported nor cleared"))
+    return rr
+
+
 def run(ctx: Ctx):
     p = ctx.p
     c = p.cls(f"{COMMON}.AttrSpec")
@@ -411,6 +442,7 @@ def run(ctx: Ctx):
         rule_twins(ctx),
         rule_hash_eq(ctx),
         rule_tables(ctx),
+        rule_depth_markers(ctx),
         truthy.run_truthy(
             p, "C18.5", [f"{COMMON}.AttrSpec.__set_foreground", f"{COMMON}.AttrSpec.__set_background"], r"^_parse_color_|^index$|^_true_to_256$", floor=2,
             description="colour numbers (0 is a colour) returned by the parsers are distinguished from None by identity, never by truthiness",
@@ -433,6 +465,7 @@ from ..mutants import Mut  # noqa: E402
 
 _C = "urwid/display/common.py"
 MUTANTS = [
+    Mut("true-colour-marker-kept", "urwid/display/common.py", "AttrSpec.__init__", "            self.__value &= ~_HIGH_TRUE_COLOR\n", "            pass\n", "SIB|display.common.AttrSpec.__init__|depth marker _HIGH_TRUE_COLOR neither reported nor cleared"),
     Mut("color-88-folds-before-validating", "urwid/display/common.py", "_parse_color_88", "            _int_digits(desc[1:], 16)\n            desc = desc[0:2] + desc[3] + desc[5]", "            desc = desc[0:2] + desc[3] + desc[5]", "TAINT|display.common._parse_color_88|seven-character fold before validation"),
     Mut("lookup-midpoint-bankers-rounding", "urwid/display/common.py", "_value_lookup_table", "(values[i] + values[i + 1] + 1) // 2", "round((values[i] + values[i + 1]) / 2)", "TAB|display.common._value_lookup_table"),
     Mut("lookup-midpoint-floor", "urwid/display/common.py", "_value_lookup_table", "(values[i] + values[i + 1] + 1) // 2", "(values[i] + values[i + 1]) // 2", "TAB|display.common._value_lookup_table"),
